@@ -80,6 +80,8 @@ fn main() {
         "C02" => dispatch(&NetEngine { prop: NetProp::C02 }, &mode),
         "C03" => dispatch(&NetEngine { prop: NetProp::C03 }, &mode),
         "C04" => dispatch(&NetEngine { prop: NetProp::C04 }, &mode),
+        "C12" => dispatch(&engines::snapxfer::XferEngine, &mode),
+        "C13" => dispatch(&engines::snapsync::SyncEngine, &mode),
         _ => {
             eprintln!("unknown property {}", prop);
             2
